@@ -176,7 +176,16 @@ func cleanupConformance(c *Ctx, cleanLen string) (*TLCStats, error) {
 			wk := cpool.get()
 			defer cpool.put(wk)
 			for cc := range cch {
+				if atomic.LoadInt64(&cleanBad) > 10 {
+					continue // enough counterexamples; drain the queue
+				}
 				rep, err := wk.runMode(croot, cc.T, "cleanup")
+				if err == nil && rep.Hung {
+					if atomic.AddInt64(&cleanBad, 1) <= 10 {
+						c.violation("cleanup", map[string]any{"why": fmt.Sprintf("the clean-up passes did not return within %v on this text (Cleanup!Terminates: at most Len + 1 rounds)", inprocWatchdog), "text": cc.T, "spec": cc.Out})
+					}
+					continue
+				}
 				if err != nil || rep.Died {
 					c.infra(fmt.Errorf("clean-up worker failed on %q: %v", cc.T, err))
 					continue
